@@ -81,6 +81,12 @@ func (p *Planner) makeTypeIndexJoin(
 	var joinPlan planNode
 	var err error
 
+	if parent.collection == nil {
+		// The parent is not a collection (e.g. the `_group` of a commits query): there is no
+		// relation that could be joined.
+		return nil, ErrUnknownRelationType
+	}
+
 	typeFieldDesc, ok := parent.collection.Definition().GetFieldByName(subType.Name)
 	if !ok {
 		return nil, client.NewErrFieldNotExist(subType.Name)
